@@ -253,19 +253,22 @@ Qed.
 
 (* solves  forallb good_rec (concrete list built from the typed record constructors) = true *)
 Ltac good :=
-  repeat first
-    [ apply good_r_int; reflexivity | apply good_r_dbl; reflexivity | apply good_r_bool; reflexivity
-    | apply good_r_com; reflexivity | apply good_r_vdbl; reflexivity | apply good_r_vint; reflexivity
-    | apply good_str_list; [reflexivity | assumption]
-    | match goal with
+  repeat match goal with
       | |- true = true => reflexivity
+      | |- good_rec (r_int _ _) = true => apply good_r_int; reflexivity
+      | |- good_rec (r_dbl _ _) = true => apply good_r_dbl; reflexivity
+      | |- good_rec (r_bool _ _) = true => apply good_r_bool; reflexivity
+      | |- good_rec (r_com _) = true => apply good_r_com; reflexivity
+      | |- good_rec (r_vdbl _ _) = true => apply good_r_vdbl; reflexivity
+      | |- good_rec (r_vint _ _) = true => apply good_r_vint; reflexivity
+      | |- forallb good_rec (map (r_str _) _) = true => apply good_str_list; [reflexivity | assumption]
       | |- forallb good_rec [] = true => reflexivity
       | |- forallb good_rec (_ ++ _) = true => rewrite forallb_app
       | |- (_ && _)%bool = true => apply andb_true_intro; split
       | |- forallb good_rec (_ :: _) = true => cbn [forallb]
       | |- forallb good_rec (map _ _) = true => apply forallb_map_true; intros
       | |- forallb good_rec (if ?b then _ else _) = true => destruct b
-      end ].
+      end.
 
 Lemma good_ANeigh a : forallb good_rec (ser_ANeigh a) = true.
 Proof. unfold ser_ANeigh. good. Qed.
